@@ -63,7 +63,28 @@ def check_builder(inp):
     return _judge(ver, interact.expected_prefix(version), "string returned by the interactive builder", r["value"])
 
 
-CHECKS = {"emitted": check_emitted, "builder": check_builder}
+def check_emitted_accepted(inp):
+    """whatever string the constructor accepts (grammar or not: that is C04's business), what the object then EMITS
+    must be valid; rejected strings are outside the domain"""
+    ver, s = inp["ver"], inp["s"]
+    if ref.classify(ver, s)[0] == ref.OK:
+        return check_emitted(inp)
+    k, o = obs.construct(ver, s)
+    if k != "ok":
+        return []
+    inp["_accepted"] = True
+    fails = []
+    for what, e in (("clean_vector()", o.clean_vector()), ("vector part of rh_vector()", o.rh_vector().split("/", 1)[-1])):
+        prefix = e[:9] if ver == "3" else spec.VERS[ver].prefixes[0]
+        if ver == "3" and prefix not in spec.VERS["3"].prefixes:
+            prefix = "CVSS:3.1/"
+        for f in _judge(ver, prefix, what, e):
+            f["note"] = (f.get("note") or "") + " [the constructor accepted %r, which is not a grammar vector]" % s
+            fails.append(f)
+    return fails
+
+
+CHECKS = {"emitted": check_emitted, "builder": check_builder, "emitted_accepted": check_emitted_accepted}
 
 
 def covering():
@@ -96,6 +117,18 @@ def covering():
     return out
 
 
+def ball_part(shard, n_seeds, seed):
+    """complete one-edit neighbourhoods: every member the constructor accepts outside the grammar goes through the check"""
+    from . import c04
+    part = runner.Part(PID)
+    found, tried = c04.accepted_outside_grammar(shard, n_seeds, seed, 8)
+    part.count(None, classes=("one-edit-ball-member-tried",), n=tried)
+    for ver, t in found[:200]:
+        part.classes["ball-member-accepted-outside-grammar"] += 1
+        part.check("emitted_accepted", check_emitted_accepted, {"ver": ver, "s": t})
+    return part
+
+
 def hyp_part(n_examples, shard):
     from hypothesis import given, strategies as st
     part = runner.Part(PID)
@@ -114,6 +147,17 @@ def hyp_part(n_examples, shard):
     def vec_case(v):
         names = sorted(c18.accessors(v))
         return st.tuples(st.just("vec"), st.just(v), gen.valid_parts(v), st.lists(st.sampled_from(names), max_size=3))
+
+    @runner.seeded(8, 100 + shard)
+    @runner.hyp_settings(max(1, n_examples // 2))
+    @given(gen.version_key().flatmap(lambda v: st.tuples(st.just(v), gen.mutated(v, max_edits=2))))
+    def t2(c):
+        ver, (s, ops) = c
+        inp = {"ver": ver, "s": s}
+        part.check("emitted_accepted", check_emitted_accepted, inp, hyp=True)
+        acc = inp.pop("_accepted", False)
+        part.count(inp, nontrivial=acc, classes=("mutant", "mutant-accepted-by-library" if acc else "mutant-rejected-or-grammar"))
+    runner.run_hyp(part, t2, "C08.hyp.mutants")
 
     @runner.seeded(8, shard)
     @runner.hyp_settings(n_examples)
@@ -141,6 +185,8 @@ def run(tier, t0):
     for ver, s in covering():
         part.count(None, classes=("covering",))
         part.check("emitted", check_emitted, {"ver": ver, "s": s})
+    for p in runner.parallel("vf.props.c08", "ball_part", [(sh, 1 if tier == "quick" else 12, runner.SEED) for sh in range(runner.NPROC)]):
+        part.merge(p)
     part.merge(runner.hyp_shards("vf.props.c08", "hyp_part", 6400 if tier == "quick" else 200000))
     rule = ("accepted vectors with every subset of optional metrics (uniform presence, any input order) + deterministic "
             "covering set, each vector emitted from a fresh object or after up to three other accessor calls (no optional metric; every single optional metric with every value; all optional metrics in two "
@@ -148,4 +194,4 @@ def run(tier, t0):
             "modes. non-trivial = vector with >= 2 optional groups defined, or an all-metrics builder run; distinct by hash")
     return runner.finish(part, tier, t0, rule,
                          ["official grammar = vectorString pattern of the pinned FIRST schemas (re.fullmatch)"],
-                         required=("covering", "v2", "v3", "v4", "groups=0", "groups=2", "builder:all", "builder:mandatory", "with-prior-calls", "fresh-object"))
+                         required=("covering", "v2", "v3", "v4", "groups=0", "groups=2", "builder:all", "builder:mandatory", "with-prior-calls", "fresh-object", "mutant", "one-edit-ball-member-tried"))
